@@ -414,14 +414,26 @@ func c09Run(ci interface{}, r *core.Rec) {
 					if hi == 2 && L > 1000 {
 						continue
 					}
-					for ci, cc := range consts {
+					for cj, cc := range append(consts, consts...) {
+						// second pass over the constants (short shapes, first placement): a low-entropy input - zero except
+						// its first and last word and the last word of every 16-byte block
+						ci, sparse := cj%len(consts), cj >= len(consts)
+						if sparse && (L > 200 || hi != 0) {
+							continue
+						}
 						if L > 1000 && ci%3 != 0 {
 							continue
+						}
+						inB := func(i int) byte {
+							if sparse && i >= 2 && i < L-2 && i%16 < 14 {
+								return 0
+							}
+							return byte(i*7 + as + 1)
 						}
 						in := gin.carve(L, as, high)
 						out := gout.carve(L, ad, high)
 						for i := range in {
-							in[i] = byte(i*7 + as + 1)
+							in[i] = inB(i)
 						}
 						op := (ci + as + ad) % 2
 						for i := range out {
@@ -439,7 +451,7 @@ func c09Run(ci interface{}, r *core.Rec) {
 							return
 						}
 						for i := 0; i+1 < L; i += 2 {
-							x := uint16(byte(i*7+as+1)) | uint16(byte((i+1)*7+as+1))<<8
+							x := uint16(inB(i)) | uint16(inB(i+1))<<8
 							want := gf16.Mul(cc, x)
 							if op == 1 {
 								want ^= uint16(byte(i*13+5)) | uint16(byte((i+1)*13+5))<<8
@@ -449,7 +461,7 @@ func c09Run(ci interface{}, r *core.Rec) {
 								r.Violatef("kernel-wrong-value:"+c.Path, "path %s len=%d align %d/%d op=%d c=%#x word %d: %#x want %#x", c.Path, L, as, ad, op, cc, i/2, got, want)
 								return
 							}
-							if in[i] != byte(i*7+as+1) || in[i+1] != byte((i+1)*7+as+1) {
+							if in[i] != inB(i) || in[i+1] != inB(i+1) {
 								r.Violatef("kernel-modified-input:"+c.Path, "path %s len=%d: input changed", c.Path, L)
 								return
 							}
@@ -497,7 +509,7 @@ func init() {
 		AltArch: true,
 		Level:   "model_checking",
 		Rule: "complete over values: for every dispatch path (SSSE3 assembly, non-SSSE3 assembly via the forced flag, portable Go byte kernels, the little-endian cast path, the []T kernels used by Matrix with the dispatch flag on and off, and the real non-amd64 dispatch (byte and []T kernels) in a GOARCH=386 worker) x every constant c (65536) x a buffer holding every word value (65536) x {Mul, MulAndAdd against a prior content}. " +
-			"Shapes: every even length 0..200 and {65534,65536,65538,131070,131072,131074,262178} x every (src,dst) alignment pair mod 16 (4x4 for the large ones) x 8 constants x placement against the upper / lower PROT_NONE guard page, and (lengths <= 200) as a window of a larger area whose capacity extends beyond the length, plus in==out aliasing. Environment: every constant x a 34-byte buffer on every path in a FRESH process whose HOME / XDG_* / TMPDIR / working directory are scratch directories, then again for every file that process left there x 11 mutations of it (truncated, emptied, garbled, grown, replaced by a directory, removed). " +
+			"Shapes: every even length 0..200 and {65534,65536,65538,131070,131072,131074,262178} x every (src,dst) alignment pair mod 16 (4x4 for the large ones) x 8 constants x placement against the upper / lower PROT_NONE guard page, and (lengths <= 200) as a window of a larger area whose capacity extends beyond the length, plus in==out aliasing; short shapes also with a low-entropy input (zero except the first / last word and the last word of every 16-byte block). Environment: every constant x a 34-byte buffer on every path in a FRESH process whose HOME / XDG_* / TMPDIR / working directory are scratch directories, then again for every file that process left there x 11 mutations of it (truncated, emptied, garbled, grown, replaced by a directory, removed). " +
 			"Oracle: out[i]==ref(c,in[i]) (xor prior); input unchanged; guard pages (faults become panics via SetPanicOnFault) and canary bytes detect any access outside the buffers. non-trivial = every executed case",
 		Assumptions: []string{"'no SSSE3' is simulated by forcing the dispatch flag (build-tagged hook)", "big-endian hosts are reached only through the exported portable byte kernels"},
 		NewCase:     func() interface{} { return &c09Case{} },
